@@ -569,7 +569,12 @@ struct PatchSpec {
     iftx: bool,
     slack: u8,
     split_raw: u16,
+    /// additionally listed tags that cannot be glyph-keyed (indices into EXTRA_TAGS): present in the font or absent
+    #[serde(default)]
+    extra: Vec<u8>,
 }
+/// tags a glyph-keyed patch may list besides glyf/gvar/CFF/CFF2: the first 8 exist in (most) generated fonts, the rest never
+const EXTRA_TAGS: [Tag4; 13] = [*b"hmtx", *b"head", *b"maxp", *b"name", *b"cmap", *b"OS/2", *b"zzzz", *b"loca", *b"GSUB", *b"kern", *b"AAAA", *b"zzzy", *b"DSIG"];
 #[derive(Clone, Debug, Serialize, Deserialize)]
 struct Decoy {
     iftx: bool,
@@ -627,6 +632,8 @@ struct BuiltPatch {
     gids: Vec<u32>,
     /// indices into Scenario::kinds
     tables: Vec<usize>,
+    /// listed tags that are not glyph-keyed tables
+    extra: Vec<Tag4>,
     bytes: Vec<u8>,
     raw_len: usize,
     iftx: bool,
@@ -899,6 +906,10 @@ impl Scenario {
         }
         extra.push((*b"OS/2", pat(salt(5, 0, 0), 78)));
         extra.push((*b"name", pat(salt(5, 1, 0), 33)));
+        extra.push((*b"cmap", pat(salt(5, 2, 0), 26)));
+        extra.push((*b"zzzz", pat(salt(5, 3, 0), 7)));
+        kit.h_metrics = vec![(500, 10)];
+        kit.lsbs = vec![3; (n - 1).min(8)];
         kit.extra = extra;
         if kit.glyf.is_none() {
             kit.version = Some(u32::from_be_bytes(*b"OTTO"));
@@ -909,8 +920,23 @@ impl Scenario {
         // --- patches
         let mut patches = vec![];
         for (p, ps) in c.patches.iter().take(np).enumerate() {
-            let tags: Vec<Tag4> = ptables[p].iter().map(|t| kinds[*t].tag()).collect();
-            let data: Vec<Vec<Vec<u8>>> = ptables[p].iter().map(|t| pgids[p].iter().map(|g| new_data[*t][g].clone()).collect()).collect();
+            let mut cols: Vec<(Tag4, Option<usize>)> = ptables[p].iter().map(|t| (kinds[*t].tag(), Some(*t))).collect();
+            for e in ps.extra.iter().take(3) {
+                let tag = EXTRA_TAGS[*e as usize % EXTRA_TAGS.len()];
+                if !cols.iter().any(|c| c.0 == tag) {
+                    cols.push((tag, None));
+                }
+            }
+            cols.sort();
+            let tags: Vec<Tag4> = cols.iter().map(|c| c.0).collect();
+            let extra_tags: Vec<Tag4> = cols.iter().filter(|c| c.1.is_none()).map(|c| c.0).collect();
+            let data: Vec<Vec<Vec<u8>>> = cols
+                .iter()
+                .map(|(tag, t)| match t {
+                    Some(t) => pgids[p].iter().map(|g| new_data[*t][g].clone()).collect(),
+                    None => pgids[p].iter().map(|g| pat(salt(6, u32::from_be_bytes(*tag) as u64, *g as u64), (*g % 5) as usize)).collect(),
+                })
+                .collect();
             let raw = encode_glyph_patches(ps.wide_gids, &pgids[p], &tags, &data);
             let cut = if ps.split_raw & 1 == 1 { raw.len() } else { idx((ps.split_raw as u32) << 16, raw.len() + 1) };
             let stream = if cut == raw.len() { lit_stream(b'R', &[&raw]) } else { lit_stream(b'R', &[&raw[..cut], &raw[cut..]]) };
@@ -918,7 +944,7 @@ impl Scenario {
             let cid = if iftx { compat_x } else { compat };
             let bytes = encode_gk_patch(ps.wide_gids, cid, (raw.len() + ps.slack as usize) as u32, &stream);
             let flag_pos = encs[iftx as usize].as_ref().unwrap().flag_pos[j];
-            patches.push(BuiltPatch { gids: pgids[p].clone(), tables: ptables[p].clone(), bytes, raw_len: raw.len(), iftx, cp, flag_pos, uri: String::new() });
+            patches.push(BuiltPatch { gids: pgids[p].clone(), tables: ptables[p].clone(), extra: extra_tags, bytes, raw_len: raw.len(), iftx, cp, flag_pos, uri: String::new() });
         }
         Ok(Scenario { n, kinds, cs_off, version, base_tables, font, base_glyphs, base_fmt, new_data, patches, compat, compat_x, def_cps, raw: c.raw })
     }
@@ -974,6 +1000,11 @@ impl Scenario {
         Ok(Decoded { tables, glyphs, fmt, gvar: gv, explained: true })
     }
 
+    /// do the patches `now` list a tag that cannot be glyph-keyed? (the documented outcome is "ignored"; the property
+    /// allows an error that leaves the bookkeeping alone, or a font in which every such table is untouched)
+    fn lists_unsupported(&self, now: &[usize]) -> bool {
+        now.iter().any(|p| !self.patches[*p].extra.is_empty())
+    }
     /// tables touched by the patches `now` (indices into kinds)
     fn touched(&self, now: &[usize]) -> BTreeSet<usize> {
         now.iter().flat_map(|p| self.patches[*p].tables.iter().copied()).collect()
@@ -1316,6 +1347,13 @@ impl Gk<'_> {
                     self.stats.class("order:intermediate-not-representable");
                     return Ok(None);
                 }
+                (Err(e), false) if sc.lists_unsupported(members) => {
+                    if via_group && snap(&map) != before {
+                        return Err(fail("gk|unsupported-tag|bookkeeping", format!("{w}: failed ({e:?}) but the URI status map changed")));
+                    }
+                    self.stats.class("unsupported-tag:refused");
+                    return Ok(None);
+                }
                 (Err(e), false) => return Err(fail("gk|unexpected-error", format!("{w}: {e:?}"))),
             }
         }
@@ -1370,6 +1408,13 @@ fn test_gk(c: &GkCase, stats: &Stats) -> CaseResult {
                 return Err(fail("gk|overflow|bookkeeping", "all-at-once: failed but the URI status map changed"));
             }
             None
+        }
+        (Err(e), false) if sc.lists_unsupported(&all) => {
+            if snap(&map) != before {
+                return Err(fail("gk|unsupported-tag|bookkeeping", format!("all-at-once: failed ({e:?}) but the URI status map changed")));
+            }
+            stats.class("unsupported-tag:refused");
+            return Ok(());
         }
         (Err(e), false) => return Err(fail("gk|unexpected-error", format!("all-at-once: {e:?}"))),
     };
@@ -1496,6 +1541,14 @@ fn test_gk(c: &GkCase, stats: &Stats) -> CaseResult {
     if sc.patches.iter().any(|p| p.gids.is_empty()) {
         stats.class("patch-with-no-glyphs");
     }
+    for p in &sc.patches {
+        if p.extra.iter().any(|t| base.tables.contains_key(t)) {
+            stats.class("lists-unsupported-tag-present-in-font");
+        }
+        if p.extra.iter().any(|t| !base.tables.contains_key(t)) {
+            stats.class("lists-unsupported-tag-absent-from-font");
+        }
+    }
     if sc.patches.iter().any(|p| p.tables.len() >= 2) {
         stats.class("patch-with-2+-tables");
     }
@@ -1604,7 +1657,7 @@ fn pool_glyph() -> impl Strategy<Value = PoolGlyph> {
     (any::<u32>(), prop_oneof![2 => (0u8..5).prop_map(|b| 1u8 << b), 3 => 1u8..32], [new_len_strategy(), new_len_strategy(), new_len_strategy(), new_len_strategy()]).prop_map(|(gid_raw, mask, lens)| PoolGlyph { gid_raw, mask, lens })
 }
 fn patch_spec() -> impl Strategy<Value = PatchSpec> {
-    (any::<bool>(), prop_oneof![3 => Just(0xFFu8), 2 => 1u8..16], any::<bool>(), prop_oneof![2 => Just(0u8), 1 => any::<u8>()], any::<u16>()).prop_map(|(wide_gids, tables, iftx, slack, split_raw)| PatchSpec { wide_gids, tables, iftx, slack, split_raw })
+    (any::<bool>(), prop_oneof![3 => Just(0xFFu8), 2 => 1u8..16], any::<bool>(), prop_oneof![2 => Just(0u8), 1 => any::<u8>()], any::<u16>(), prop_oneof![3 => Just(vec![]), 2 => proptest::collection::vec(0u8..13, 1..=3)]).prop_map(|(wide_gids, tables, iftx, slack, split_raw, extra)| PatchSpec { wide_gids, tables, iftx, slack, split_raw, extra })
 }
 fn map_spec() -> impl Strategy<Value = MapSpec> {
     (
@@ -2121,7 +2174,7 @@ fn big_case(i: u64) -> GkCase {
         pool: vec![PoolGlyph { gid_raw: 0x8000_0000, mask: 1, lens: [7, 7, 7, 7] }],
         run: None,
         edge: 0,
-        patches: vec![PatchSpec { wide_gids: i % 3 == 0, tables: 0xFF, iftx: false, slack: 0, split_raw: 1 }],
+        patches: vec![PatchSpec { wide_gids: i % 3 == 0, tables: 0xFF, iftx: false, slack: 0, split_raw: 1, extra: vec![] }],
         map: MapSpec { which: 0, compat: [1, 2, 3, 4], x_word: 0, gap: 0, bias_mode: 0, id_deltas: vec![0], decoys: vec![] },
         plan: Some(SizePlan { table_raw: 0, thr: 3, delta, in_base: i >= 4, filler_raw: 0 }),
         perm: i,
@@ -2151,7 +2204,7 @@ fn known_case(i: u64) -> GkCase {
 
 fn main() {
     let ctx = Ctx::from_args("C18");
-    ctx.set_rule("Generated scenarios: synthetic base font (glyf+loca / gvar / CFF / CFF2 in 9 combinations, opaque per-glyph data, short and long offsets, INDEX offSize 1..4, sizes planted within +-4 bytes of the 131070 / 254 / 65534 limits on half of the cases), hand-encoded format-2 IFT/IFTX tables with decoy entries, 1..5 glyph-keyed patches (overlapping glyph sets with equal data, u16/u24 ids, 1..3 tables, lengths 0/odd/even/large) or one table-keyed patch (replace / diff / drop per table), transparent decoder with a fault at call k for every k and every DecodeError kind. Non-trivial: a glyph-keyed application that keeps and replaces glyphs of one table and changes its total size (or is refused for short-loca overflow), or a fault injected at k >= 2; a table-keyed patch with >= 2 entries of different kinds. Distinct by hash of the case.");
+    ctx.set_rule("Generated scenarios: synthetic base font (glyf+loca / gvar / CFF / CFF2 in 9 combinations, opaque per-glyph data, short and long offsets, INDEX offSize 1..4, sizes planted within +-4 bytes of the 131070 / 254 / 65534 limits on half of the cases), hand-encoded format-2 IFT/IFTX tables with decoy entries, 1..5 glyph-keyed patches (overlapping glyph sets with equal data, u16/u24 ids, 1..3 glyph tables plus, on 40 % of the patches, 1..3 listed tags that cannot be glyph-keyed (hmtx/head/maxp/name/cmap/OS/2/loca/an extra table present in the font, or tags absent from it) at any position of the sorted tag list, lengths 0/odd/even/large) or one table-keyed patch (replace / diff / drop per table), transparent decoder with a fault at call k for every k and every DecodeError kind. Non-trivial: a glyph-keyed application that keeps and replaces glyphs of one table and changes its total size (or is refused for short-loca overflow), or a fault injected at k >= 2; a table-keyed patch with >= 2 entries of different kinds. Distinct by hash of the case.");
     ctx.assume("the oracle's own sfnt reader (vcore::sfnt) and loca / gvar / INDEX decoders; the library's sparse-bit-set writer is used to encode entry code points; URIs are discovered by querying intersecting_patches with each entry's private code point");
     ctx.prop_stage("glyph-keyed", Isolation::Threads, ctx.n(24_000, 280_000), gk_strategy, test_gk);
     ctx.prop_stage("table-keyed", Isolation::Threads, ctx.n(40_000, 500_000), tk_strategy, test_tk);
